@@ -125,6 +125,31 @@ def h_get_date(ctx, m, greg):
     ctx.vc("get_date() == (y, m, d)", and_(r[0] == y, r[1] == m, r[2] == d))
 
 
+def _cuts_get_date_wrong():
+    """canary for the cut mechanism: a cut whose goal is false on a whole path (after it is assumed the path condition is empty
+    and nothing further of the path is explored); the recorded obligation must still be reported"""
+    c = dict(_cuts_get_date())
+
+    def cut_a_wrong(it, frame):
+        y, m, d = Num.int_var("y"), it.info["case_m"], Num.int_var("d")
+        return frame.locals["a"] == JDN_julian(y, m, d) + 1
+    c[("Epoch.get_date", "a", 1)] = cut_a_wrong
+    return c
+
+
+@P.harness("get_date/canary-cut-false-on-a-whole-path", cases=[dict(m=3)], cuts=_cuts_get_date_wrong, expect="refuted", crosscheck=0)
+def h_get_date_cut_canary(ctx, m):
+    y = ctx.int("y", lo=-4712, hi=1500, sample=(-4712, 1500))
+    d = ctx.int("d", lo=1, hi=31)
+    if not ctx.native:
+        ctx.it.info["case_m"] = m
+    ctx.assume(civil_valid(y, m, d))
+    e = epoch_obj(ctx)
+    ctx.setfield(e, "_jde", JDN(y, m, d) - 0.5)
+    r = ctx.method(e, "get_date")
+    ctx.vc("get_date() == (y, m, d)", and_(r[0] == y, r[1] == m, r[2] == d))
+
+
 # ---- 4. the property as a lemma: build, read back; callee replaced by contract
 def _contract_compute_jde(it, fref, args, kwargs):
     """functional contract proved by harness 1"""
@@ -233,3 +258,6 @@ def b_sweep(rng, tier):
             except ValueError:
                 pass
         yield ((y, n), bad is None, bad)
+
+
+P.frame_check()
